@@ -1,11 +1,11 @@
 package sim
 
 import (
-	"strconv"
 	"database/sql"
 	"flag"
 	"fmt"
 	"runtime"
+	"strconv"
 	"strings"
 	"time"
 
@@ -151,15 +151,17 @@ type ATCfg struct {
 	DataValidation bool   `json:"data_validation"`
 	OnlyUpdateCols bool   `json:"only_care_update_columns"`
 	ServerVersion  string `json:"server_version"`
+	// LoadBalance: session selection policy of the client ("" = RandomLoadBalance)
+	LoadBalance string `json:"load_balance,omitempty"`
 	// AutoIncStep: the server's auto_increment_increment (0/1 = default)
-	AutoIncStep    int    `json:"auto_inc_step,omitempty"`
-	BufferLimit    int    `json:"buffer_limit"`
-	CleanMs        int    `json:"clean_ms"`
-	RecvChan       int    `json:"recv_chan"`
-	Workers        int    `json:"workers"`
-	WorkerBuf      int    `json:"worker_buf"`
-	LockRetryMs    int    `json:"lock_retry_ms"`
-	LockRetryTimes int    `json:"lock_retry_times"`
+	AutoIncStep    int `json:"auto_inc_step,omitempty"`
+	BufferLimit    int `json:"buffer_limit"`
+	CleanMs        int `json:"clean_ms"`
+	RecvChan       int `json:"recv_chan"`
+	Workers        int `json:"workers"`
+	WorkerBuf      int `json:"worker_buf"`
+	LockRetryMs    int `json:"lock_retry_ms"`
+	LockRetryTimes int `json:"lock_retry_times"`
 }
 
 // applyServerCfg sets the server variables of the run on a database model.
@@ -216,7 +218,11 @@ const simDSNParams = "?interpolateParams=true&parseTime=true&multiStatements=tru
 // bootAT initialises remoting + TM + RM + AT (+TCC) inside the bubble and
 // opens the session. Data sources are opened later by OpenDS from an actor.
 func bootAT(seed uint64, tape *simkit.Tape, cfg ATCfg, ncfg simnet.Config) *ATWorld {
-	w := bootRemoting(seed, tape, BootCfg{LoadBalance: "RandomLoadBalance", CommitRetry: 2, RollbackRetry: 2}, ncfg)
+	lb := cfg.LoadBalance
+	if lb == "" {
+		lb = "RandomLoadBalance"
+	}
+	w := bootRemoting(seed, tape, BootCfg{LoadBalance: lb, CommitRetry: 2, RollbackRetry: 2}, ncfg)
 	execcfg.Init(rm.LockConfig{RetryInterval: time.Duration(cfg.LockRetryMs) * time.Millisecond, RetryTimes: cfg.LockRetryTimes, RetryPolicyBranchRollbackOnConflict: true})
 	tcc.InitTCC()
 	ucfg := undo.Config{DataValidation: cfg.DataValidation, LogSerialization: cfg.Serializer, LogTable: "undo_log", OnlyCareUpdateColumns: cfg.OnlyUpdateCols,
